@@ -267,7 +267,7 @@ type c18L2Sys struct {
 func (y *c18L2Sys) newWorld() *world.L2 {
 	s := y.votes.Root() // oracle pairs, bridge info, host validators
 	w := s.w
-	for _, n := range []string{"alice", "bob", "o1", "o2", "o3", "e2"} {
+	for _, n := range []string{"alice", "bob", "o1", "o2", "o3", "o4", "o5", "e2"} {
 		w.CreateAccount(w.Ctx, n, nil)
 	}
 	return w
@@ -327,6 +327,8 @@ func (y *c18L2Sys) ops() []c18L2Op {
 		{"Withdraw(alice,1)", func(w *world.L2, ctx sdk.Context) sdk.Msg {
 			return opchildtypes.NewMsgInitiateTokenWithdrawal(alice, "l1addr", sdk.NewInt64Coin(c06Denom, 1))
 		}, "msg"},
+		{"AddValidator(o4,k4)", add("o4", "k4"), "msg"},
+		{"AddValidator(o5,k5)", add("o5", "k5"), "msg"},
 		{"AddValidator(o1,k1)", add("o1", "k1"), "msg"},
 		{"AddValidator(o2,k2)", add("o2", "k2"), "msg"},
 		{"AddValidator(o3,k3)", add("o3", "k3"), "msg"},
